@@ -1,9 +1,10 @@
 """C12 -- classes keep their members, bases, metaclass, method kinds and super().
 
 PendingClassDef.get_result against the class-creation idiom (DESIGN 4.2): the class object
-is created by calling the metaclass (the `metaclass` keyword, else `type`) with the name,
-the bases and the remaining keywords in source order and an EMPTY namespace; the name is
-bound through the namespace BEFORE the body runs (the body's `__class__` needs it); the body
+is created by types.new_class (data model 3.3.3: MRO entries, metaclass, __prepare__) with the
+name, the bases and ALL keywords in source order and an EMPTY body, and kept in a fresh
+reserved name; the class name is bound through the namespace LAST (Language Reference 8.8),
+to what the decorators return; the body
 runs once, in order, inside the loader lambda with stores routed to the member dict
 (namespace contract, C06); every entry of the member dict is installed with setattr in
 insertion order; decorators are applied last (C07 group, shared); zero-argument super():
@@ -28,7 +29,7 @@ PROPERTY = "C12"
 HOSTS = ["3.12"]
 LEVEL = "proof"
 TRUSTED_BASE = [
-    "reading of the class idiom: M(name, bases, {}, **kw) creates the class; setattr(C, k, v) for (k, v) in the member dict installs members in insertion order; `__class__ := C` in the loader lambda makes the cell methods capture",
+    "reading of the class idiom: types.new_class(name, bases, kwds) creates the class as the class statement does with an empty body (stdlib, documented equivalent of data model 3.3.3.1-3.3.3.3 and 3.3.3.6); setattr(C, k, v) for (k, v) in the member dict installs members in insertion order; `__class__ := C` in the loader lambda makes the cell methods capture",
     "contracts of Namespace.get_assign/get_load_name for class scopes (C06) and of expr_transf",
     "Language Reference 8.8 (class definitions), data model 3.3.3 (metaclasses)",
 ]
@@ -47,8 +48,10 @@ def g_class_shape(R, tier):
         def run(c):
             m = Machine(stubs=stubs())
             kw = lambda t: ast.keyword(arg=Hole((t, "arg"), "ident", **{"not_in": {"metaclass"}}), value=CL.src((t, "value")))
-            K1, K2 = CL.seg("K1", kw), CL.seg("K2", kw)
-            kws = [K1, K2] if meta == "type" else [K1, ast.keyword(arg="metaclass", value=CL.src("META")), K2]
+            star = lambda t: ast.keyword(arg=None, value=CL.src((t, "value")))
+            # named keywords, a run of **mappings, named keywords; the metaclass keyword between them
+            K1, KS, K2 = CL.seg("K1", kw), CL.seg("KS", star), CL.seg("K2", kw)
+            kws = [K1, KS, K2] if meta == "type" else [K1, ast.keyword(arg="metaclass", value=CL.src("META")), KS, K2]
             node = ast.ClassDef(name="C", bases=[CL.seg("BASE", lambda t: CL.src(t))], keywords=kws, body=[], decorator_list=[], lineno=3, col_offset=0)
             symt = Opaque(("cls", "symt"), object, methods=dict(get_lineno=lambda o: 3, get_name=lambda o: "C"))
             inner = CL.mk_nsp("cls", kinds=("class",), symt=symt, class_member_dict_expr=ast.Name(id=Hole("clsdict", "ident", fresh=True)))
@@ -69,40 +72,66 @@ def g_class_shape(R, tier):
             res, node, inner = v["res"], v["node"], v["inner"]
             sym.set_ctx(c)
             try:
-                # ---- 1. creation ---------------------------------------------------------
+                # ---- 1. creation (data model 3.3.3: MRO entries, metaclass of the keywords or
+                # of the bases, __prepare__, the metaclass called with name, bases, namespace and
+                # the remaining keywords -- what types.new_class(name, bases, kwds) does) ----------
                 first = res[0] if res else None
-                sem = first.props.get("sem") if isinstance(first, Opaque) else None
-                okb = sem is not None and sem[0] == "store" and sem[1] == "outer" and sem[2] == "C"
-                R.check(f"{nm}/class-name-bound-in-the-defining-scope-first/{sig}", okb, repr(first), replay=dict(kind="classes"))
-                if not okb:
+                created = getattr(c, "ol_created", ())
+                okt = isinstance(first, ast.NamedExpr) and isinstance(first.target, ast.Name) and any(first.target.id is h for h in created)
+                R.check(f"{nm}/class-object-kept-in-a-fresh-reserved-name-first/{sig}", bool(okt), repr(first), replay=dict(kind="classes"))
+                if not okt:
                     continue
-                call = sem[3]
-                okc = isinstance(call, ast.Call) and len(call.args) == 3 and isinstance(call.args[0], ast.Constant) and call.args[0].value == "C" \
-                    and isinstance(call.args[1], ast.Tuple) and isinstance(call.args[2], ast.Dict) and not call.args[2].keys and not call.args[2].values
-                R.check(f"{nm}/created-by-calling-the-metaclass-with-name-bases-empty-namespace/{sig}", bool(okc), ast.dump(call)[:200] if isinstance(call, ast.AST) else repr(call))
+                CLS = first.target.id
+                is_cls = lambda e: isinstance(e, ast.Name) and e.id is CLS
+                call = first.value
+                f = call.func if isinstance(call, ast.Call) else None
+                okf = isinstance(f, ast.Attribute) and f.attr == "new_class" and isinstance(f.value, ast.Call) and isinstance(f.value.func, ast.Name) \
+                    and f.value.func.id == "__import__" and len(f.value.args) == 1 and not f.value.keywords \
+                    and isinstance(f.value.args[0], ast.Constant) and f.value.args[0].value == "types"
+                okc = okf and not call.keywords and len(call.args) in (3, 4) and isinstance(call.args[0], ast.Constant) and call.args[0].value == "C" \
+                    and isinstance(call.args[1], ast.Tuple) and isinstance(call.args[2], ast.Dict)
+                R.check(f"{nm}/created-by-types.new_class-with-name-bases-keywords/{sig}", bool(okc), ast.dump(call)[:200] if isinstance(call, ast.AST) else repr(call),
+                        replay=dict(kind="classes"))
                 if not okc:
                     continue
-                if meta == "type":
-                    okm = isinstance(call.func, ast.Name) and call.func.id == "type"
-                else:
-                    okm = isinstance(call.func, Opaque) and call.func.props.get("sem", (0,))[0] == "T" and tagstr(call.func.props["sem"][2].tag) == "META"
-                R.check(f"{nm}/metaclass-is-the-keyword-or-type/{sig}", bool(okm), repr(call.func), replay=dict(kind="classes"))
                 BASE = node.bases[0]
                 bases = call.args[1].elts
                 okbases = len(bases) == 1 and isinstance(bases[0], Seg) and TL.term_eq(c, bases[0].length, BASE.length) and not bases[0].rev \
                     and bases[0].items[0].props.get("sem", (0, 0, 0))[2] is BASE.items[0] if not c13._provably_zero(c, BASE.length) else True
                 R.check(f"{nm}/bases-in-source-order/{sig}", bool(okbases), repr(bases), replay=dict(kind="classes"))
-                src_kws = [k for k in node.keywords if isinstance(k, Seg) and not c13._provably_zero(c, k.length)]
-                out_kws = [k for k in call.keywords if not (isinstance(k, Seg) and c13._provably_zero(c, k.length))]
-                okk = len(src_kws) == len(out_kws)
-                for a, b in zip(src_kws, out_kws):
-                    okk = okk and isinstance(b, Seg) and TL.term_eq(c, a.length, b.length) and b.items[0].arg is a.items[0].arg \
-                        and b.items[0].value.props.get("sem", (0, 0, 0))[2] is a.items[0].value
-                R.check(f"{nm}/remaining-keywords-in-source-order-without-metaclass/{sig}", bool(okk), repr(call.keywords), replay=dict(kind="classes"))
+                # every keyword of the statement, the metaclass keyword among them, is an entry
+                # of the keyword dict, in source order; **mappings are unpacked in place
+                live = lambda xs: [k for k in xs if not (isinstance(k, Seg) and c13._provably_zero(c, k.length))]
+                src_kws, keys, vals = live(node.keywords), live(call.args[2].keys), live(call.args[2].values)
+                okk = len(src_kws) == len(keys) == len(vals)
+                is_T = lambda e, srcnode: isinstance(e, Opaque) and e.props.get("sem", (0, 0, 0))[0] == "T" and e.props["sem"][1] == "outer" and e.props["sem"][2] is srcnode
+                for a, k, b in zip(src_kws, keys, vals) if okk else ():
+                    if isinstance(a, Seg):
+                        okk = okk and isinstance(k, Seg) and isinstance(b, Seg) and not k.rev and not b.rev \
+                            and TL.term_eq(c, a.length, k.length) and TL.term_eq(c, a.length, b.length) and is_T(b.items[0], a.items[0].value)
+                        if a.items[0].arg is None:
+                            okk = okk and k.items[0] is None
+                        else:
+                            okk = okk and isinstance(k.items[0], ast.Constant) and k.items[0].value is a.items[0].arg
+                    else:
+                        okk = okk and isinstance(k, ast.Constant) and k.value == "metaclass" and is_T(b, a.value)
+                R.check(f"{nm}/all-keywords-metaclass-included-in-source-order/{sig}", bool(okk), f"{call.args[2].keys!r} {call.args[2].values!r}", replay=dict(kind="classes"))
+                # the only thing the creation-time body does: __module__ = __name__ (data model
+                # 3.3.3.4 / Language Reference 8.8: the namespace of a class starts with __module__)
+                if len(call.args) == 4:
+                    xb = call.args[3]
+                    a4 = xb.args if isinstance(xb, ast.Lambda) else None
+                    one = a4 is not None and len(a4.args) == 1 and not (a4.posonlyargs or a4.kwonlyargs or a4.vararg or a4.kwarg or a4.defaults)
+                    pnm = a4.args[0].arg if one else None
+                    bd = xb.body if one else None
+                    okx = one and isinstance(bd, ast.Call) and isinstance(bd.func, ast.Attribute) and bd.func.attr == "__setitem__" \
+                        and isinstance(bd.func.value, ast.Name) and bd.func.value.id == pnm and pnm != "__name__" and len(bd.args) == 2 and not bd.keywords \
+                        and isinstance(bd.args[0], ast.Constant) and bd.args[0].value == "__module__" and isinstance(bd.args[1], ast.Name) and bd.args[1].id == "__name__"
+                    R.check(f"{nm}/creation-time-body-only-sets-__module__-from-__name__/{sig}", bool(okx), ast.dump(xb)[:200] if isinstance(xb, ast.AST) else repr(xb))
                 # ---- 2. loader -------------------------------------------------------------------
                 loaders = [(i, x) for i, x in enumerate(res) if isinstance(x, ast.NamedExpr) and isinstance(x.value, ast.Lambda)]
                 okl = len(loaders) == 1 and loaders[0][0] == 1
-                R.check(f"{nm}/one-loader-lambda-after-the-binding/{sig}", okl, repr(res))
+                R.check(f"{nm}/one-loader-lambda-after-the-creation/{sig}", okl, repr(res))
                 if not okl:
                     continue
                 lam = loaders[0][1].value
@@ -116,9 +145,9 @@ def g_class_shape(R, tier):
                 elts = lb.value.elts
                 dkey = TL.nk(inner.fields["class_member_dict_expr"].id)
                 e0, e1, elast = elts[0], elts[1], elts[-1]
-                ok0 = isinstance(e0, ast.NamedExpr) and e0.target.id == "__class__" and isinstance(e0.value, Opaque) and e0.value.props.get("sem", (0,))[0] == "load" \
-                    and e0.value.props["sem"][1] == "outer" and e0.value.props["sem"][2] == "C"
-                R.check(f"{nm}/__class__-cell-is-the-class-read-back-through-the-namespace/{sig}", bool(ok0), repr(e0), replay=dict(kind="classes"))
+                # data model 3.3.3.6: __class__ is the class object itself, whatever the name is bound to
+                ok0 = isinstance(e0, ast.NamedExpr) and e0.target.id == "__class__" and is_cls(e0.value)
+                R.check(f"{nm}/__class__-cell-is-the-created-class-object/{sig}", bool(ok0), repr(e0), replay=dict(kind="classes"))
                 ok1 = isinstance(e1, ast.NamedExpr) and TL.nk(e1.target.id) == dkey and isinstance(e1.value, ast.Dict) and not e1.value.keys
                 okl_ = isinstance(elast, ast.Name) and TL.nk(elast.id) == dkey
                 R.check(f"{nm}/member-dict-created-empty-before-the-body-and-returned-last/{sig}", bool(ok1 and okl_), f"{e1!r} ... {elast!r}")
@@ -142,9 +171,17 @@ def g_class_shape(R, tier):
                 R.check(f"{nm}/iterates-the-items-of-the-dict-the-loader-returns-once/{sig}", bool(okit) and names is not None and len(names) == 2, repr(it))
                 e = lc.elt
                 okset = names is not None and isinstance(e, ast.Call) and isinstance(e.func, ast.Name) and e.func.id == "setattr" and len(e.args) == 3 \
-                    and isinstance(e.args[0], Opaque) and e.args[0].props.get("sem", (0,))[0] == "load" and e.args[0].props["sem"][2] == "C" \
+                    and is_cls(e.args[0]) \
                     and isinstance(e.args[1], ast.Name) and isinstance(e.args[2], ast.Name) and [e.args[1].id, e.args[2].id] == names
                 R.check(f"{nm}/every-member-set-on-the-class-under-its-own-key/{sig}", bool(okset), repr(e), replay=dict(kind="classes"))
+                # ---- 4. binding (Language Reference 8.8: "the class name is bound to this class
+                # object in the original local namespace", after the body and the decorators) ----
+                last = res[-1]
+                sem = last.props.get("sem") if isinstance(last, Opaque) else None
+                okb = len(res) == 4 and sem is not None and sem[0] == "store" and sem[1] == "outer" and sem[2] == "C" and is_cls(sem[3])
+                R.check(f"{nm}/class-name-bound-in-the-defining-scope-last-to-the-class/{sig}", bool(okb), repr(res), replay=dict(kind="classes"))
+                others = [x for x in res[:-1] if isinstance(x, Opaque) and (x.props.get("sem") or (0,))[0] == "store"]
+                R.check(f"{nm}/nothing-else-bound-in-the-defining-scope/{sig}", not others, repr(others), replay=dict(kind="classes"))
             finally:
                 sym.set_ctx(None)
 
@@ -198,7 +235,26 @@ def g_methods(R, tier):
                         R.undecided(f"{nm}/lambda-shape/{sig}", repr(lam))
 
 
-GROUPS = {"class_shape": g_class_shape, "methods": g_methods, "class_header_order_and_decorators": c07.g_classdef, "method_super_free_names": c06.g_method_super,
+def g_witness(R, tier):
+    """what the class idiom has no place for (see c06.native_finding): each clause is decided by
+    its witness program against the real converter"""
+    c06.native_finding(R, "pending_nodes.PendingClassDef.get_result/W1-members-are-present-when-the-class-object-is-created",
+                       "the class is created with an empty body and filled with setattr: what type.__new__ derives from the namespace is lost "
+                       "(data model 3.3.1 object.__hash__: a class that defines __eq__ without __hash__ gets __hash__ = None; also __slots__, "
+                       "ABCMeta.__abstractmethods__, descriptors' __set_name__)",
+                       "class A:\n    def __eq__(self, other):\n        return True\nr = A.__hash__ is None\n")
+    c06.native_finding(R, "expr_transform+pending_nodes.PendingAssign.assign_attribute/W2-private-names-are-mangled-with-the-class-name",
+                       "Language Reference 6.2.1: an identifier __v inside a class statement means _Class__v; the converted text is not inside a "
+                       "class statement and nothing re-applies the mangling (`self.__v` of A and of its subclass B become one attribute)",
+                       "class A:\n    def __init__(self):\n        self.__v = 'A'\n    def get(self):\n        return self.__v\n"
+                       "class B(A):\n    def __init__(self):\n        super().__init__()\n        self.__v = 'B'\nr = (B().get(), sorted(vars(B())))\n")
+    c06.native_finding(R, "pending_nodes.PendingWhile.get_result/W3-zero-argument-super-stays-in-the-function-of-the-method",
+                       "zero-argument super() takes the first parameter of the function it is evaluated in (data model 3.3.3.6 / PEP 3135); the while "
+                       "idiom moves the loop test into a helper lambda with a parameter of its own, so super() in a while test gets the loop counter",
+                       "class A:\n    def more(self):\n        return False\nclass B(A):\n    def run(self):\n        while super().more():\n            pass\n        return 'ok'\nr = B().run()\n")
+
+
+GROUPS = {"witness": g_witness, "class_shape": g_class_shape, "methods": g_methods, "class_header_order_and_decorators": c07.g_classdef, "method_super_free_names": c06.g_method_super,
           "canary": c13.g_canary}
 
 CLASS_PROGRAMS = [
@@ -212,6 +268,15 @@ CLASS_PROGRAMS = [
     "class M(type):\n    def __new__(m, n, b, d, **k):\n        c = super().__new__(m, n, b, d)\n        c.kw = k\n        return c\n    def __init__(c, n, b, d, **k):\n        pass\nclass B: pass\nclass A(B, metaclass=M, flag=1):\n    y = 2\nr = (type(A).__name__, A.kw, A.y, [k.__name__ for k in A.__mro__])\n",
     "log = []\nclass Base:\n    def __init_subclass__(cls, tag=None, **kw):\n        log.append((cls.__name__, tag))\nclass C(Base, tag='t'):\n    pass\nr = log\n",
     "def deco(c):\n    c.tag = 1\n    return c\n@deco\nclass C:\n    pass\ndef outer():\n    x = 5\n    class A:\n        def m(self):\n            return x\n    class B(A):\n        def m(self):\n            return super().m() + x\n    return B().m()\nr = (C.tag, outer())\n",
+    # data model 3.3.3.1 (__mro_entries__), 3.3.3.2 (metaclass found among **keywords / inherited), 3.3.3.3 (__prepare__ is called)
+    "class G:\n    def __mro_entries__(self, bases):\n        return (dict,)\nclass A(G()):\n    pass\nr = ([k.__name__ for k in A.__mro__], type(A.__orig_bases__[0]).__name__)\n",
+    "log = []\nclass M(type):\n    def __new__(m, n, b, d, **k):\n        log.append(sorted(k))\n        return super().__new__(m, n, b, d)\n    def __init__(c, n, b, d, **k):\n        pass\n"
+    "kw = {'metaclass': M, 'z': 1}\nclass A(**kw):\n    x = 1\nclass B(A, w=2):\n    pass\nr = (type(A).__name__, type(B).__name__, A.x, log)\n",
+    "log = []\nclass M(type):\n    @classmethod\n    def __prepare__(m, n, b, **k):\n        log.append(('prepare', n, sorted(k)))\n        return {}\n    def __new__(m, n, b, d, **k):\n        return super().__new__(m, n, b, d)\n    def __init__(c, n, b, d, **k):\n        pass\nclass A(metaclass=M, q=1):\n    v = 3\nr = (log, A.v)\n",
+    # Language Reference 8.8: the name is bound after the body ran and the decorators were applied
+    "A = 5\nclass A:\n    y = A\nlog = []\ndef d(c):\n    log.append(X)\n    return 7\nX = 1\n@d\nclass X:\n    z = X\nr = (A.y, log, X)\n",
+    "class A:\n    def me(self):\n        return __class__\n    def name(self):\n        return A\nB = A\nA = None\nr = (B().me() is B, B().name())\n",
+    "class A:\n    pass\nr = (A.__module__ == __name__, A.__name__)\n",
     "class A:\n    n = 0\n    while n < 6:\n        n += 2\n    if n > 5:\n        big = True\n    class Inner:\n        z = 9\nr = (A.n, A.big, A.Inner.z)\n",
 ]
 
